@@ -326,14 +326,24 @@ theorem iter_cand (m : Nat) (hm : 0 < m) (xs : List Int) (dur start : Int) (with
     unfold findNextZeroCrossing at ht
     have hq0 := C16.roundHalfEven_nonneg _ m hm (getInterval_fst_nonneg start step dur rev)
     generalize roundHalfEven (getInterval start step dur rev).1 m = q at *
-    cases hn : nextIdx (slice xs q (roundHalfEven (getInterval start step dur rev).2 m)) rev with
+    have hc0 : (0 : Int) ≤ ((clampSample q xs.length : Nat) : Int) := by omega
+    cases hn : nextIdx (slice xs ((clampSample q xs.length : Nat) : Int)
+        ((clampSample (roundHalfEven (getInterval start step dur rev).2 m) xs.length : Nat) : Int)) rev with
     | none => rw [hn] at ht; simp at ht
     | some z =>
       rw [hn] at ht
       simp only [Option.map_some, Option.some.injEq] at ht
-      have hg := genuine_of_slice xs _ _ hq0 z (crossing_genuine _ rev z hn)
-      refine ⟨q.toNat + z, ?_, hg⟩
-      rw [← ht, Int.natCast_add, Int.toNat_of_nonneg hq0, Int.add_mul]
+      have hgs := crossing_genuine _ rev z hn
+      have hg := genuine_of_slice xs _ _ hc0 z hgs
+      -- the window is not empty, so its start index was not clamped: it is `q` itself
+      have hlen := slice_length_le xs ((clampSample q xs.length : Nat) : Int)
+        ((clampSample (roundHalfEven (getInterval start step dur rev).2 m) xs.length : Nat) : Int) hc0
+      have hzlt := hgs.1
+      have hcq : ((clampSample q xs.length : Nat) : Int) = q := by
+        unfold clampSample at hlen hzlt ⊢; omega
+      rw [Int.toNat_natCast] at hg
+      refine ⟨clampSample q xs.length + z, ?_, hg⟩
+      rw [← ht, Int.natCast_add, hcq, Int.add_mul]
 
 /-- one round on a plain sample list never raises, and both candidates are crossings -/
 theorem round_list (m : Nat) (hm : 0 < m) (xs : List Int) (dur step a b : Int) :
@@ -837,16 +847,20 @@ theorem all_zero_target (m : Nat) (hm : 0 < m) (xs : List Int) (hz : ∀ x ∈ x
       exact this
     rw [hi]
     generalize roundHalfEven e m = j at hj
+    have hck : ((clampSample k xs.length : Nat) : Int) = k := C16.clampSample_of_range k _ hk (by omega)
+    rw [hck]
+    have hcj : k + 1 ≤ ((clampSample j xs.length : Nat) : Int) := by unfold clampSample; omega
+    generalize ((clampSample j xs.length : Nat) : Int) = j' at hcj
     -- the window is a non-empty list of zeros
-    have hlen : 0 < (slice xs k j).length := by
+    have hlen : 0 < (slice xs k j').length := by
       unfold slice pyClamp
       simp only [List.length_drop, List.length_take]
       rw [if_neg (by omega), if_neg (by omega)]
       omega
-    cases hys : slice xs k j with
+    cases hys : slice xs k j' with
     | nil => rw [hys] at hlen; simp at hlen
     | cons y ys =>
-      have hy : y = 0 := hz y (mem_of_mem_slice xs k j y (by rw [hys]; simp))
+      have hy : y = 0 := hz y (mem_of_mem_slice xs k j' y (by rw [hys]; simp))
       subst hy
       unfold findNextZeroCrossing nextIdx nearestZero find
       simp only [Bool.false_eq_true, if_false]
@@ -955,14 +969,15 @@ theorem unpack_slice (w : Nat) (hw : 0 < w) (f : List UInt8) (n : Nat) (hf : f.l
     exact Nat.mul_mod_left _ _
 
 /-- **getSamples at any two times** (negative, beyond the end, reversed, off the grid) on a recording
-of whole samples is `samples[round(s·rate) : round(e·rate)]` with Python's slice semantics, and
-never raises -/
+of whole samples is `samples[i : j]` with `i`, `j` the sample boundaries of the recording nearest to the two times
+(`round(t·rate)` clamped into `[0, n]`, commit 300c9d2; a reversed pair: nothing), and never raises -/
 theorem getSamples_slice (wv : Wav) (hwv : C16.Whole wv) (hk : knownWidth wv.width = true) (s e : QTime) :
-    wv.getSamples s e = .ok (slice wv.samples (sampleAtTime s wv.rate) (sampleAtTime e wv.rate)) := by
+    wv.getSamples s e = .ok (slice wv.samples ((wv.sampleIndex s : Nat) : Int) ((wv.sampleIndex e : Nat) : Int)) := by
   obtain ⟨hw, n, hn⟩ := hwv
   have hf : wv.frames.length = n * wv.width := by rw [hn, Nat.mul_comm]
-  obtain ⟨h1, h2⟩ := unpack_slice wv.width hw wv.frames n hf (sampleAtTime s wv.rate) (sampleAtTime e wv.rate)
-  unfold Wav.getSamples convertFromBytes Wav.getFrames getB Wav.index indexAtTime Wav.samples
+  obtain ⟨h1, h2⟩ := unpack_slice wv.width hw wv.frames n hf ((wv.sampleIndex s : Nat) : Int) ((wv.sampleIndex e : Nat) : Int)
+  unfold Wav.getSamples convertFromBytes Wav.getFrames getB Wav.samples
+  rw [C16.index_cast, C16.index_cast, Int.natCast_mul, Int.natCast_mul]
   simp only [hk, Bool.not_true, Bool.false_eq_true, if_false]
   rw [if_neg (by rw [h2]; simp), h1]
 
@@ -979,7 +994,9 @@ theorem wavReader_eq (wv : Wav) (hwv : C16.Whole wv) (hk : knownWidth wv.width =
     (m : Nat) (hm : 0 < m) : wavReader wv m = listReader m wv.samples := by
   funext a b
   unfold wavReader listReader
-  rw [getSamples_slice wv hwv hk, sampleAtTime_ticks wv.rate m hr hm, sampleAtTime_ticks wv.rate m hr hm]
+  rw [getSamples_slice wv hwv hk]
+  unfold Wav.sampleIndex
+  rw [sampleAtTime_ticks wv.rate m hr hm, sampleAtTime_ticks wv.rate m hr hm, C16.nsamples_samples]
 
 /-- **the search on an in-memory `Wav`** (bytes, any width in 1/2/4/8) is the search on its sample
 list; so every theorem above about `searchList` is a theorem about `searchWav`.  The three hypotheses on the
@@ -1465,44 +1482,35 @@ theorem insertSpace_tier_hi (t : AnyTier Int) (t' : AnyTier Int) (a d H : Int) (
     rw [hi1]; have : pt.hi ≤ H := hH; omega
 
 /-- the audio after a splice with a replaced region `[a, b]`: the samples before `a`, the segment, the
-samples from `b` on — every other sample keeps value and order.  Hypotheses: whole samples (C16's domain);
-a segment of whole samples of the audio's width (`hseg`; nothing in the code checks it:
-`splice_segment_params_counterexample`); both times inside the recording (a time outside is accepted by the
-code and read as a clamped or negative Python index: `splice_outside_counterexample`); start ≤ end (a
-reversed region raises, `splice_region_reversed`, after it has duplicated audio in the caller's object). -/
+samples from `b` on — every other sample keeps value and order.  `wv.sampleIndex t` is the sample boundary of the
+recording nearest to `t` (`C16.sampleIndex_nearest`): a start before the recording addresses its first sample
+(commit 300c9d2; it used to be read as a negative Python index).  Hypotheses: whole samples (C16's domain);
+a segment of whole samples of the audio's width (`hseg`); the two times address an ordered pair of
+boundaries (`hab`; a reversed region is rejected: `splice_region_reversed`); the region does not end beyond the
+recording (`hb`: there the segment is appended and the deletion, computed in the lengthened recording, reaches
+into it). -/
 theorem spliceWav_region_samples (wv : Wav) (hwv : C16.Whole wv) (seg : List UInt8) (hseg : wv.width ∣ seg.length)
-    (a b : QTime) (ha : C16.InDur wv a) (hb : C16.InDur wv b)
-    (hab : sampleAtTime a wv.rate ≤ sampleAtTime b wv.rate) :
+    (a b : QTime) (hab : sampleAtTime a wv.rate ≤ sampleAtTime b wv.rate)
+    (hb : sampleAtTime b wv.rate ≤ wv.nsamples) :
     (spliceWav wv seg a (some b)).samples =
-      wv.samples.take (sampleAtTime a wv.rate).toNat ++ unpack wv.width seg ++
-        wv.samples.drop (sampleAtTime b wv.rate).toNat := by
+      wv.samples.take (wv.sampleIndex a) ++ unpack wv.width seg ++ wv.samples.drop (wv.sampleIndex b) := by
   unfold spliceWav
   simp only [Option.getD_some]
   have hw1 : C16.Whole (wv.insert b seg) := ⟨hwv.1, C16.insertB_whole _ _ _ hwv.2 hseg _⟩
-  have hlen : (wv.insert b seg).frames.length = wv.frames.length + seg.length := insertB_length _ _ _
-  have hdur : ∀ t, C16.InDur wv t → C16.InDur (wv.insert b seg) t := by
-    intro t ⟨h1, h2, h3⟩
-    refine ⟨h1, h2, ?_⟩
-    have h3' : t.num * ((wv.rate * wv.width : Nat) : Int) ≤ ((wv.frames.length : Nat) : Int) * (t.den : Int) := h3
-    show t.num * (((wv.insert b seg).rate * (wv.insert b seg).width : Nat) : Int) ≤
-      (((wv.insert b seg).frames.length : Nat) : Int) * (t.den : Int)
-    rw [hlen, Int.natCast_add, Int.add_mul]
-    have : (0 : Int) ≤ (seg.length : Int) * (t.den : Int) := Int.mul_nonneg (by omega) (by omega)
-    show t.num * ((wv.rate * wv.width : Nat) : Int) ≤ _
-    omega
-  rw [C16.deleteSegment_samples _ hw1 a b (hdur a ha) (hdur b hb)]
-  show ((wv.insert b seg).samples.take (sampleAtTime a wv.rate).toNat ++
-      (wv.insert b seg).samples.drop (sampleAtTime b wv.rate).toNat) = _
-  rw [C16.insert_samples wv hwv b hb seg hseg]
-  have hbr := (C16.sample_range wv hwv b hb)
-  have har := (C16.sample_range wv hwv a ha)
+  have hn := C16.insert_nsamples_le wv b seg
+  have hst : ∀ t, sampleAtTime t wv.rate ≤ wv.nsamples → (wv.insert b seg).sampleIndex t = wv.sampleIndex t := by
+    intro t ht
+    show clampSample (sampleAtTime t wv.rate) (wv.insert b seg).nsamples = clampSample (sampleAtTime t wv.rate) wv.nsamples
+    unfold clampSample; omega
+  rw [C16.deleteSegment_samples _ hw1 a b, hst a (by omega), hst b hb, C16.insert_samples wv hwv b seg hseg]
+  have hbr := C16.sample_range wv b
+  have hi : wv.sampleIndex a ≤ wv.sampleIndex b := by
+    unfold Wav.sampleIndex clampSample; omega
   rw [← C16.nsamples_samples] at hbr
   generalize wv.samples = S at *
-  generalize sampleAtTime a wv.rate = i at *
-  generalize sampleAtTime b wv.rate = j at *
-  have hi : i.toNat ≤ j.toNat := by omega
-  have hj : j.toNat ≤ S.length := by omega
-  have htl : (S.take j.toNat).length = j.toNat := by rw [List.length_take]; omega
+  generalize wv.sampleIndex a = i at *
+  generalize wv.sampleIndex b = j at *
+  have htl : (S.take j).length = j := by rw [List.length_take]; omega
   rw [List.append_assoc, List.take_append_of_le_length (by omega), List.take_take, Nat.min_eq_left hi,
     List.drop_left' htl, List.append_assoc]
 
